@@ -48,11 +48,13 @@ type Contract struct {
 	Trusted     bool // body not verified: contract assumed (externals, unsafe code)
 	Inline      bool // callers inline the body even though a contract exists
 	NoInline    bool // never inline: callers use contract or havoc
+	NonBlocking bool // the function cannot block (time does not pass across a call to it); checked for verified functions
 	Dispatch    bool // interface method: resolved per call by case split over the module's implementing types
 	ParamNames  []string
 	Asserts     []*Clause // (unused)
 	Regions     []*Region
 	Callsites   []*Callsite
+	DynCalls    [][]*Clause // dyncall f1, f2: a call through a function value of their signature targets one of them (checked)
 	Reveals     []string
 	MayPanic    bool // function is allowed to panic (callers get no guarantee either)
 }
@@ -117,7 +119,7 @@ func newSpecs() *Specs {
 	return &Specs{Contracts: map[string]*Contract{}, Pures: map[string]*PureFn{}, Lemmas: map[string]*Lemma{}}
 }
 
-var keywordRe = regexp.MustCompile(`^(package|func|requires|ensures|modifies|loop|trusted|inline|noinline|dispatch|maypanic|pure|uninterp|lemma|global|region|from|to|params|callsite|opaque|reveal)\b`)
+var keywordRe = regexp.MustCompile(`^(package|func|requires|ensures|modifies|loop|trusted|inline|noinline|dispatch|dyncall|nonblocking|maypanic|pure|uninterp|lemma|global|region|from|to|params|callsite|opaque|reveal)\b`)
 
 // expandKey turns "(*T).M" / "(T).M" / "F" into the ssa qualified name for pkgPath.
 // Keys that already contain a '/' or a '.' before the first '(' are taken as written.
@@ -364,6 +366,20 @@ func (sp *Specs) ParseFile(path string, defaultPkg string) {
 			default:
 				sp.errf(path, rc.line, "bad loop clause kind %q", f[1])
 			}
+		case "dyncall":
+			if cur == nil {
+				sp.errf(path, rc.line, "dyncall outside func")
+				continue
+			}
+			var set []*Clause
+			for _, nm := range strings.Split(rest, ",") {
+				if c := mkClause(strings.TrimSpace(nm), rc.line); c != nil {
+					set = append(set, c)
+				}
+			}
+			if len(set) > 0 {
+				cur.DynCalls = append(cur.DynCalls, set)
+			}
 		case "callsite":
 			if cur == nil {
 				sp.errf(path, rc.line, "callsite outside func")
@@ -392,6 +408,10 @@ func (sp *Specs) ParseFile(path string, defaultPkg string) {
 		case "dispatch":
 			if cur != nil {
 				cur.Dispatch = true
+			}
+		case "nonblocking":
+			if cur != nil {
+				cur.NonBlocking = true
 			}
 		case "maypanic":
 			if cur != nil {
